@@ -1,4 +1,394 @@
+/* Network part of ksi_exec: simulated socket layer (link-time --wrap of the libc calls libksi uses),
+ * fake libcurl (the drivers are linked without -lcurl), virtual clock, and the sign/extend/async/HA ops. */
+#include <ksi/ksi.h>
+#include <ksi/net_uri.h>
+#include <ksi/net_async.h>
+#include <ksi/net_ha.h>
+#include <curl/curl.h>
+#include <sys/types.h>
+#include <sys/socket.h>
+#include <sys/ioctl.h>
+#include <netdb.h>
+#include <netinet/in.h>
+#include <poll.h>
+#include <errno.h>
+#include <time.h>
+#include <unistd.h>
+#include "internal.h"
+#include "impl/ctx_impl.h"
+#include "impl/net_async_impl.h"
+#include "vh.h"
 #include "ksi_exec.h"
+
+/* ------------------------------------------------------------------ virtual clock */
+static time_t vclock = 1700000000;
+time_t __real_time(time_t *t);
+time_t __wrap_time(time_t *t) { if (t) *t = vclock; return vclock; }
+
+/* ------------------------------------------------------------------ simulated sockets */
+#define SIM_FD0 5000
+#define MAXCONN 256
+#define MAXEP 16
+#define MAXSCRIPT 64
+enum { CS_FREE = 0, CS_NEW, CS_CONNECTING, CS_ESTABLISHED, CS_REFUSED, CS_CLOSED };
+typedef struct { char host[300]; char port[16]; int connect_mode; /* 0 ok, 1 inprogress (established at next poll), 2 refused, 3 dnsfail, 4 stay connecting */
+	int sendscript[MAXSCRIPT]; int nsend; int recvscript[MAXSCRIPT]; int nrecv; int pollout_off; } Endpoint;
+typedef struct { int state; int ep; int nonblock; unsigned char *inq; size_t inlen, incap; int eof, reset, pollout_off, pollin_off;
+	int sendscript[MAXSCRIPT]; int nsend, psend; int recvscript[MAXSCRIPT]; int nrecv, precv; size_t sent_total; } Conn;
+static Endpoint eps[MAXEP]; static int neps;
+static Conn conns[MAXCONN]; static int nconn_opened;
+
+static int ep_find(const char *host, const char *port) {
+	int i; for (i = 0; i < neps; i++) if (!strcmp(eps[i].host, host) && !strcmp(eps[i].port, port)) return i;
+	if (neps >= MAXEP) return -1;
+	snprintf(eps[neps].host, sizeof eps[neps].host, "%s", host); snprintf(eps[neps].port, sizeof eps[neps].port, "%s", port);
+	return neps++;
+}
+static Conn *conn_of(int fd) { int i = fd - SIM_FD0; if (i < 0 || i >= MAXCONN || conns[i].state == CS_FREE) return NULL; return &conns[i]; }
+
+static int parse_script(const char *s, int *out) { int n = 0; if (!s || !*s || !strcmp(s, "-")) return 0; while (*s && n < MAXSCRIPT) { out[n++] = (int)strtol(s, (char **)&s, 10); if (*s == ',') s++; } return n; }
+
+int __wrap_getaddrinfo(const char *node, const char *service, const struct addrinfo *hints, struct addrinfo **res) {
+	int e = ep_find(node ? node : "", service ? service : ""); struct addrinfo *ai; struct sockaddr_in *sa;
+	(void)hints;
+	kx_event(0, "resolve host=%s port=%s ep=%d", node ? node : "-", service ? service : "-", e);
+	if (e < 0 || eps[e].connect_mode == 3) return EAI_NONAME;
+	ai = calloc(1, sizeof *ai); sa = calloc(1, sizeof *sa);
+	sa->sin_family = AF_INET; sa->sin_port = htons((unsigned short)atoi(service ? service : "0")); sa->sin_addr.s_addr = htonl(0x7f000100u + (unsigned)e);
+	ai->ai_family = AF_INET; ai->ai_socktype = SOCK_STREAM; ai->ai_protocol = IPPROTO_TCP; ai->ai_addrlen = sizeof *sa; ai->ai_addr = (struct sockaddr *)sa;
+	*res = ai; return 0;
+}
+void __wrap_freeaddrinfo(struct addrinfo *res) { if (res) { free(res->ai_addr); free(res); } }
+int __wrap_socket(int domain, int type, int protocol) {
+	int i; (void)domain; (void)type; (void)protocol;
+	for (i = 0; i < MAXCONN; i++) if (conns[i].state == CS_FREE) break;
+	if (i == MAXCONN) { errno = EMFILE; return -1; }
+	memset(&conns[i], 0, sizeof conns[i]); conns[i].state = CS_NEW; conns[i].ep = -1; nconn_opened++;
+	return SIM_FD0 + i;
+}
+int __real_ioctl(int fd, unsigned long req, void *arg);
+int __wrap_ioctl(int fd, unsigned long req, void *arg) { Conn *c = conn_of(fd); if (!c) return __real_ioctl(fd, req, arg); if (req == FIONBIO) c->nonblock = arg ? *(int *)arg != 0 : 0; return 0; }
+int __real_setsockopt(int fd, int level, int optname, const void *optval, socklen_t optlen);
+int __wrap_setsockopt(int fd, int level, int optname, const void *optval, socklen_t optlen) { if (!conn_of(fd)) return __real_setsockopt(fd, level, optname, optval, optlen); return 0; }
+int __real_connect(int fd, const struct sockaddr *addr, socklen_t len);
+int __wrap_connect(int fd, const struct sockaddr *addr, socklen_t len) {
+	Conn *c = conn_of(fd); const struct sockaddr_in *sa = (const struct sockaddr_in *)addr; int e;
+	if (!c) return __real_connect(fd, addr, len);
+	e = (int)(ntohl(sa->sin_addr.s_addr) - 0x7f000100u);
+	if (e < 0 || e >= neps) { errno = ENETUNREACH; return -1; }
+	c->ep = e; memcpy(c->sendscript, eps[e].sendscript, sizeof c->sendscript); c->nsend = eps[e].nsend; memcpy(c->recvscript, eps[e].recvscript, sizeof c->recvscript); c->nrecv = eps[e].nrecv; c->pollout_off = eps[e].pollout_off;
+	kx_event(0, "tcp_open fd=%d ep=%d host=%s port=%s nonblock=%d", fd, e, eps[e].host, eps[e].port, c->nonblock);
+	switch (eps[e].connect_mode) {
+		case 0: c->state = CS_ESTABLISHED; return 0;
+		case 1: case 4: c->state = CS_CONNECTING; if (c->nonblock) { errno = EINPROGRESS; return -1; } c->state = CS_ESTABLISHED; return 0;
+		case 2: if (c->nonblock) { c->state = CS_REFUSED; errno = EINPROGRESS; return -1; } c->state = CS_CLOSED; errno = ECONNREFUSED; return -1;
+		default: errno = ENETUNREACH; return -1;
+	}
+}
+int __real_poll(struct pollfd *fds, nfds_t n, int timeout);
+int __wrap_poll(struct pollfd *fds, nfds_t n, int timeout) {
+	nfds_t i; int cnt = 0;
+	if (n == 0 || !conn_of(fds[0].fd)) return __real_poll(fds, n, timeout);
+	for (i = 0; i < n; i++) {
+		Conn *c = conn_of(fds[i].fd); fds[i].revents = 0;
+		if (!c) { fds[i].revents = POLLNVAL; cnt++; continue; }
+		if (c->state == CS_CONNECTING && eps[c->ep].connect_mode == 1) c->state = CS_ESTABLISHED;
+		if (c->state == CS_REFUSED) fds[i].revents |= POLLHUP | POLLERR | ((fds[i].events & POLLOUT) ? POLLOUT : 0) | ((fds[i].events & POLLIN) ? POLLIN : 0);
+		else if (c->state == CS_ESTABLISHED) {
+			if ((fds[i].events & POLLOUT) && !c->pollout_off) fds[i].revents |= POLLOUT;
+			if ((fds[i].events & POLLIN) && !c->pollin_off && (c->inlen > 0 || c->eof || c->reset)) fds[i].revents |= POLLIN;
+		}
+		if (fds[i].revents) cnt++;
+	}
+	return cnt;
+}
+ssize_t __real_send(int fd, const void *buf, size_t n, int flags);
+ssize_t __wrap_send(int fd, const void *buf, size_t n, int flags) {
+	Conn *c = conn_of(fd); size_t k = n; char *hx;
+	if (!c) return __real_send(fd, buf, n, flags);
+	if (c->state != CS_ESTABLISHED) { errno = c->state == CS_CONNECTING ? EAGAIN : EPIPE; return -1; }
+	if (c->psend < c->nsend) {
+		int s = c->sendscript[c->psend++];
+		if (s == 0) { kx_event(0, "tcp_wouldblock fd=%d", fd); errno = EAGAIN; return -1; }
+		if (s == -2) { errno = EINTR; return -1; }
+		if (s < 0) { c->state = CS_CLOSED; kx_event(0, "tcp_senderr fd=%d", fd); errno = ECONNRESET; return -1; }
+		if ((size_t)s < k) k = (size_t)s;
+	}
+	hx = vh_hex(buf, k); kx_event(0, "tcp_send fd=%d off=%zu hex=%s", fd, c->sent_total, hx); free(hx);
+	c->sent_total += k;
+	return (ssize_t)k;
+}
+static void conn_push(Conn *c, const unsigned char *p, size_t n) {
+	if (c->inlen + n > c->incap) { c->incap = (c->inlen + n) * 2 + 64; c->inq = realloc(c->inq, c->incap); }
+	memcpy(c->inq + c->inlen, p, n); c->inlen += n;
+}
+ssize_t __real_recv(int fd, void *buf, size_t n, int flags);
+ssize_t __wrap_recv(int fd, void *buf, size_t n, int flags) {
+	Conn *c = conn_of(fd); size_t k;
+	if (!c) return __real_recv(fd, buf, n, flags);
+	if (c->state != CS_ESTABLISHED) { errno = ENOTCONN; return -1; }
+	for (;;) {
+		if (c->precv < c->nrecv && c->recvscript[c->precv] == -2) { c->precv++; errno = EINTR; return -1; }
+		if (c->inlen > 0) break;
+		if (c->reset) { c->state = CS_CLOSED; errno = ECONNRESET; return -1; }
+		if (c->eof) return 0;
+		if (c->nonblock) { errno = EAGAIN; return -1; }
+		/* blocking socket with nothing to read: ask the reference server */
+		{ char *a = kx_event(1, "tcp_block fd=%d sent=%zu", fd, c->sent_total);
+		  if (!strncmp(a, "data ", 5)) { char *sp = strchr(a + 5, ' '); size_t l; unsigned char *b; if (sp) { *sp = 0; c->nrecv = parse_script(sp + 1, c->recvscript); c->precv = 0; } b = vh_unhex(a + 5, &l); conn_push(c, b, l); free(b); }
+		  else if (!strcmp(a, "eof")) c->eof = 1;
+		  else if (!strcmp(a, "reset")) c->reset = 1;
+		  else { errno = EAGAIN; return -1; } /* "timeout": SO_RCVTIMEO expired */
+		}
+	}
+	k = n < c->inlen ? n : c->inlen;
+	if (c->precv < c->nrecv) { int s = c->recvscript[c->precv++]; if (s > 0 && (size_t)s < k) k = (size_t)s; }
+	memcpy(buf, c->inq, k); memmove(c->inq, c->inq + k, c->inlen - k); c->inlen -= k;
+	return (ssize_t)k;
+}
+int __real_close(int fd);
+int __wrap_close(int fd) {
+	Conn *c = conn_of(fd);
+	if (!c) return __real_close(fd);
+	kx_event(0, "tcp_close fd=%d unread=%zu", fd, c->inlen);
+	free(c->inq); memset(c, 0, sizeof *c); c->state = CS_FREE;
+	return 0;
+}
+
+/* ------------------------------------------------------------------ fake libcurl */
+#undef curl_easy_setopt
+#undef curl_easy_getinfo
+#undef curl_multi_setopt
+typedef struct SimEasy_st { int id; char *url; const char *post; long postsize; int is_post; curl_write_callback wfn; void *wdata; void *priv; char *errbuf; long httpcode;
+	long ctimeout, timeout; struct curl_slist *hdr; struct SimMulti_st *multi; int has_completion, done, reported; CURLcode result; unsigned char *body; size_t bodylen; int chunks[MAXSCRIPT]; int nchunks; CURLMsg msg; long order; } SimEasy;
+typedef struct SimMulti_st { SimEasy *e[1024]; int n; } SimMulti;
+static int easy_seq; static SimEasy *all_easy[4096]; static int n_all_easy; static long completion_order;
+
+CURLcode curl_global_init(long flags) { (void)flags; return CURLE_OK; }
+void curl_global_cleanup(void) {}
+CURL *curl_easy_init(void) { SimEasy *e = calloc(1, sizeof *e); int i; e->id = ++easy_seq; for (i = 0; i < n_all_easy; i++) if (!all_easy[i]) break; if (i == n_all_easy && n_all_easy < 4096) n_all_easy++; if (i < 4096) all_easy[i] = e; return e; }
+void curl_easy_reset(CURL *c) { SimEasy *e = c; int id = e->id; free(e->url); free(e->body); memset(e, 0, sizeof *e); e->id = id; }
+void curl_easy_cleanup(CURL *c) { SimEasy *e = c; int i; if (!e) return; for (i = 0; i < n_all_easy; i++) if (all_easy[i] == e) all_easy[i] = NULL; free(e->url); free(e->body); free(e); }
+CURLcode curl_easy_setopt(CURL *c, CURLoption opt, ...) {
+	SimEasy *e = c; va_list va; va_start(va, opt);
+	switch (opt) {
+		case CURLOPT_URL: { const char *u = va_arg(va, const char *); free(e->url); e->url = u ? strdup(u) : NULL; break; }
+		case CURLOPT_POSTFIELDS: e->post = va_arg(va, const char *); break;
+		case CURLOPT_POSTFIELDSIZE: e->postsize = va_arg(va, long); break;
+		case CURLOPT_POST: e->is_post = (int)va_arg(va, long); break;
+		case CURLOPT_WRITEFUNCTION: e->wfn = va_arg(va, curl_write_callback); break;
+		case CURLOPT_WRITEDATA: e->wdata = va_arg(va, void *); break;
+		case CURLOPT_PRIVATE: e->priv = va_arg(va, void *); break;
+		case CURLOPT_ERRORBUFFER: e->errbuf = va_arg(va, char *); break;
+		case CURLOPT_CONNECTTIMEOUT: e->ctimeout = va_arg(va, long); break;
+		case CURLOPT_TIMEOUT: e->timeout = va_arg(va, long); break;
+		case CURLOPT_HTTPHEADER: e->hdr = va_arg(va, struct curl_slist *); break;
+		default: break;
+	}
+	va_end(va); return CURLE_OK;
+}
+CURLcode curl_easy_getinfo(CURL *c, CURLINFO info, ...) {
+	SimEasy *e = c; va_list va; va_start(va, info);
+	if (info == CURLINFO_PRIVATE) { char **p = va_arg(va, char **); *p = e->priv; }
+	else if (info == CURLINFO_RESPONSE_CODE) { long *p = va_arg(va, long *); *p = e->httpcode; }
+	else { va_end(va); return CURLE_UNKNOWN_OPTION; }
+	va_end(va); return CURLE_OK;
+}
+struct curl_slist *curl_slist_append(struct curl_slist *l, const char *s) { struct curl_slist *n = calloc(1, sizeof *n), *p; n->data = strdup(s); if (!l) return n; for (p = l; p->next; p = p->next); p->next = n; return l; }
+void curl_slist_free_all(struct curl_slist *l) { while (l) { struct curl_slist *n = l->next; free(l->data); free(l); l = n; } }
+const char *curl_multi_strerror(CURLMcode c) { (void)c; return "simulated multi error"; }
+const char *curl_easy_strerror(CURLcode c) { (void)c; return "simulated error"; }
+
+static void easy_announce(SimEasy *e, const char *kind, int wait, char **answer) {
+	char *hx = vh_hex((const unsigned char *)(e->post ? e->post : ""), e->is_post && e->post ? (size_t)e->postsize : 0); char hdr[512] = "-"; char *a;
+	if (e->hdr && e->hdr->data) { size_t i; snprintf(hdr, sizeof hdr, "%s", e->hdr->data); for (i = 0; hdr[i]; i++) if (hdr[i] == ' ') hdr[i] = '_'; }
+	a = kx_event(wait, "%s id=%d post=%d ct=%ld to=%ld hdr=%s url=%s body=%s", kind, e->id, e->is_post, e->ctimeout, e->timeout, hdr, e->url ? e->url : "-", *hx ? hx : "-");
+	free(hx); if (answer) *answer = a;
+}
+/* completion spec: "<httpcode> <curlcode> <hexbody|-> [chunks]" */
+static void easy_set_completion(SimEasy *e, char *spec) {
+	char *save = NULL, *t; size_t l;
+	t = strtok_r(spec, " ", &save); e->httpcode = t ? atol(t) : 0;
+	t = strtok_r(NULL, " ", &save); e->result = t ? (CURLcode)atoi(t) : CURLE_OK;
+	t = strtok_r(NULL, " ", &save); free(e->body); e->body = NULL; e->bodylen = 0; if (t && strcmp(t, "-")) { e->body = vh_unhex(t, &l); e->bodylen = l; }
+	t = strtok_r(NULL, " ", &save); e->nchunks = parse_script(t, e->chunks);
+	e->has_completion = 1;
+}
+static void easy_deliver(SimEasy *e) {
+	size_t off = 0; int ci = 0;
+	while (off < e->bodylen && e->wfn) {
+		size_t k = e->bodylen - off, r; unsigned char *ex;
+		if (ci < e->nchunks && e->chunks[ci] > 0 && (size_t)e->chunks[ci] < k) k = (size_t)e->chunks[ci];
+		ci++;
+		ex = vh_exact(e->body + off, k);
+		r = e->wfn((char *)ex, 1, k, e->wdata);
+		vh_exact_free(ex, k);
+		if (r != k) { e->result = CURLE_WRITE_ERROR; if (e->errbuf) snprintf(e->errbuf, CURL_ERROR_SIZE, "Failed writing body"); return; }
+		off += k;
+	}
+	if (e->result != CURLE_OK && e->errbuf) snprintf(e->errbuf, CURL_ERROR_SIZE, "simulated transfer error %d", (int)e->result);
+}
+CURLcode curl_easy_perform(CURL *c) {
+	SimEasy *e = c; char *a = NULL;
+	easy_announce(e, "http", 1, &a);
+	if (strncmp(a, "resp ", 5)) { if (e->errbuf) snprintf(e->errbuf, CURL_ERROR_SIZE, "no reply"); return CURLE_OPERATION_TIMEDOUT; }
+	easy_set_completion(e, a + 5);
+	easy_deliver(e);
+	return e->result;
+}
+CURLM *curl_multi_init(void) { return calloc(1, sizeof(SimMulti)); }
+CURLMcode curl_multi_setopt(CURLM *m, CURLMoption o, ...) { (void)m; (void)o; return CURLM_OK; }
+CURLMcode curl_multi_cleanup(CURLM *m) { free(m); return CURLM_OK; }
+CURLMcode curl_multi_add_handle(CURLM *mh, CURL *c) {
+	SimMulti *m = mh; SimEasy *e = c;
+	if (m->n >= 1024) return CURLM_OUT_OF_MEMORY;
+	m->e[m->n++] = e; e->multi = m; e->has_completion = e->done = e->reported = 0; e->result = CURLE_OK; e->httpcode = 0;
+	easy_announce(e, "http_async", 0, NULL);
+	return CURLM_OK;
+}
+CURLMcode curl_multi_remove_handle(CURLM *mh, CURL *c) { SimMulti *m = mh; int i; for (i = 0; i < m->n; i++) if (m->e[i] == c) { memmove(&m->e[i], &m->e[i + 1], sizeof(m->e[0]) * (size_t)(m->n - i - 1)); m->n--; ((SimEasy *)c)->multi = NULL; return CURLM_OK; } return CURLM_OK; }
+CURLMcode curl_multi_perform(CURLM *mh, int *running) {
+	SimMulti *m = mh; int i, r = 0;
+	for (i = 0; i < m->n; i++) { SimEasy *e = m->e[i]; if (e->has_completion && !e->done) { easy_deliver(e); e->done = 1; e->order = ++completion_order; } if (!e->done) r++; }
+	if (running) *running = r; return CURLM_OK;
+}
+CURLMsg *curl_multi_info_read(CURLM *mh, int *left) {
+	SimMulti *m = mh; int i, cnt = 0; SimEasy *best = NULL;
+	for (i = 0; i < m->n; i++) { SimEasy *e = m->e[i]; if (e->done && !e->reported) { cnt++; if (!best || e->order < best->order) best = e; } }
+	if (!best) { if (left) *left = 0; return NULL; }
+	best->reported = 1; best->msg.msg = CURLMSG_DONE; best->msg.easy_handle = best; best->msg.data.result = best->result;
+	if (left) *left = cnt - 1; return &best->msg;
+}
+
+/* ------------------------------------------------------------------ ops */
+static char **T; static int NT;
+static int is(const char *c) { return !strcmp(T[0], c); }
+static KSI_DataHash *hash_arg(KSI_CTX *c, const char *hex, int *rc) { size_t n; unsigned char *b = kx_hexarg(hex, &n); KSI_DataHash *h = NULL; *rc = KSI_DataHash_fromImprint(c, b, n, &h); vh_exact_free(b, n); return h; }
+static const char *nz(const char *s) { return (!s || !strcmp(s, "-")) ? NULL : s; }
+static void out_sig(const char *key, KSI_Signature *s) { unsigned char *raw = NULL; size_t n = 0; int r = KSI_Signature_serialize(s, &raw, &n); if (r == KSI_OK) kx_outhex(key, raw, n); else kx_out(" %s=ERR%d", key, r); KSI_free(raw); }
+static void out_ksi_err(KSI_CTX *c) { int ext = 0; char buf[512]; int st = KSI_ERR_getBaseErrorMessage(c, buf, sizeof buf, &ext, NULL); size_t i; (void)st; for (i = 0; buf[i]; i++) if (buf[i] == ' ' || buf[i] == '\n') buf[i] = '_'; kx_out(" ext=%d msg=%s", ext, buf[0] ? buf : "-"); }
+
+static int async_opt_by_name(const char *n) {
+	if (!strcmp(n, "con_timeout")) return KSI_ASYNC_OPT_CON_TIMEOUT; if (!strcmp(n, "rcv_timeout")) return KSI_ASYNC_OPT_RCV_TIMEOUT; if (!strcmp(n, "snd_timeout")) return KSI_ASYNC_OPT_SND_TIMEOUT;
+	if (!strcmp(n, "cache_size")) return KSI_ASYNC_OPT_REQUEST_CACHE_SIZE; if (!strcmp(n, "max_request_count")) return KSI_ASYNC_OPT_MAX_REQUEST_COUNT; return -1;
+}
+static void tag_free(void *p) { free(p); }
+
+static size_t conf_cb_calls; static char conf_last[512];
+static void fmt_config(KSI_Config *cfg, char *out, size_t n) {
+	KSI_Integer *ml = NULL, *aa = NULL, *ap = NULL, *mr = NULL, *cf = NULL, *cl = NULL; size_t o = 0;
+	KSI_Config_getMaxLevel(cfg, &ml); KSI_Config_getAggrAlgo(cfg, &aa); KSI_Config_getAggrPeriod(cfg, &ap); KSI_Config_getMaxRequests(cfg, &mr); KSI_Config_getCalendarFirstTime(cfg, &cf); KSI_Config_getCalendarLastTime(cfg, &cl);
+#define F(name, v) o += (size_t)snprintf(out + o, o < n ? n - o : 0, v ? "%s:%llu," : "%s:-,", name, v ? (unsigned long long)KSI_Integer_getUInt64(v) : 0ull)
+	F("ml", ml); F("aa", aa); F("ap", ap); F("mr", mr); F("cf", cf); F("cl", cl);
+#undef F
+}
+static int conf_cb(KSI_CTX *ctx, KSI_Config *cfg) { (void)ctx; conf_cb_calls++; fmt_config(cfg, conf_last, sizeof conf_last); kx_event(0, "conf_callback %s", conf_last); return KSI_OK; }
+
+static void out_handle(KSI_AsyncHandle *h) {
+	int state = -1, err = 0; long ext = 0; KSI_uint64_t id = 0; const void *tag = NULL; size_t parent = 0; int r;
+	KSI_AsyncHandle_getState(h, &state); kx_out(" state=%d", state);
+	KSI_AsyncHandle_getError(h, &err); KSI_AsyncHandle_getExtError(h, &ext); kx_out(" herr=%d hext=%ld", err, ext);
+	r = KSI_AsyncHandle_getRequestId(h, &id); kx_out(" reqid=%llu", r == KSI_OK ? (unsigned long long)id : 0ull);
+	KSI_AsyncHandle_getRequestCtx(h, &tag); kx_out(" tag=%s", tag ? (const char *)tag : "-");
+	if (KSI_AsyncHandle_getParentId(h, &parent) == KSI_OK) kx_out(" parent=%zu", parent);
+	if (state == KSI_ASYNC_STATE_RESPONSE_RECEIVED) {
+		KSI_AggregationResp *ar = NULL; KSI_ExtendResp *er = NULL; KSI_Signature *sig = NULL; KSI_Integer *rid = NULL;
+		if (KSI_AsyncHandle_getAggregationResp(h, &ar) == KSI_OK && ar) { KSI_Integer *st = NULL; KSI_AggregationResp_getRequestId(ar, &rid); KSI_AggregationResp_getStatus(ar, &st); kx_out(" respid=%llu respstatus=%llu", (unsigned long long)KSI_Integer_getUInt64(rid), (unsigned long long)KSI_Integer_getUInt64(st)); }
+		if (KSI_AsyncHandle_getExtendResp(h, &er) == KSI_OK && er) { KSI_Integer *st = NULL; KSI_ExtendResp_getRequestId(er, &rid); KSI_ExtendResp_getStatus(er, &st); kx_out(" respid=%llu respstatus=%llu", (unsigned long long)KSI_Integer_getUInt64(rid), (unsigned long long)KSI_Integer_getUInt64(st)); }
+		r = KSI_AsyncHandle_getSignature(h, &sig); kx_out(" sigrc=%d", r);
+		if (r == KSI_OK && sig) { KSI_DataHash *dh = NULL; const unsigned char *imp; size_t il; if (KSI_Signature_getDocumentHash(sig, &dh) == KSI_OK && dh) { KSI_DataHash_getImprint(dh, &imp, &il); kx_outhex("sigdoc", imp, il); } out_sig("sig", sig); }
+		KSI_Signature_free(sig);
+	} else if (state == KSI_ASYNC_STATE_PUSH_CONFIG_RECEIVED) {
+		KSI_Config *cfg = NULL; char b[512] = "-"; if (KSI_AsyncHandle_getConfig(h, &cfg) == KSI_OK && cfg) fmt_config(cfg, b, sizeof b); kx_out(" config=%s", b);
+	}
+}
+
+int kx_net_dispatch(char **tok, int ntok, int *handled) {
+	T = tok; NT = ntok; *handled = 1;
+	if (is("clock")) { if (tok[1][0] == '+') vclock += atol(tok[1] + 1); else vclock = atol(tok[1]); kx_out(" now=%ld", (long)vclock); return 0; }
+	if (is("net_ep")) { /* net_ep <host> <port> [connect=N] [send=script] [recv=script] [pollout=0|1] */
+		int e = ep_find(tok[1], tok[2]); if (e < 0) return -1;
+		eps[e].connect_mode = (int)kx_kvl("connect", eps[e].connect_mode);
+		if (kx_kv("send")) eps[e].nsend = parse_script(kx_kv("send"), eps[e].sendscript);
+		if (kx_kv("recv")) eps[e].nrecv = parse_script(kx_kv("recv"), eps[e].recvscript);
+		eps[e].pollout_off = !kx_kvl("pollout", !eps[e].pollout_off);
+		kx_out(" ep=%d", e); return 0; }
+	if (is("net_push")) { Conn *c = conn_of(atoi(tok[1])); size_t n; unsigned char *b; if (!c) return -1; b = kx_hexarg(tok[2], &n); conn_push(c, b, n); vh_exact_free(b, n); if (kx_kv("recv")) { c->nrecv = parse_script(kx_kv("recv"), c->recvscript); c->precv = 0; } return 0; }
+	if (is("net_eof")) { Conn *c = conn_of(atoi(tok[1])); if (!c) return -1; c->eof = 1; return 0; }
+	if (is("net_reset")) { Conn *c = conn_of(atoi(tok[1])); if (!c) return -1; c->reset = 1; return 0; }
+	if (is("net_conn")) { /* net_conn <fd> [send=script] [recv=script] [pollout=0|1] [pollin=0|1] [established=1] */
+		Conn *c = conn_of(atoi(tok[1])); if (!c) return -1;
+		if (kx_kv("send")) { c->nsend = parse_script(kx_kv("send"), c->sendscript); c->psend = 0; }
+		if (kx_kv("recv")) { c->nrecv = parse_script(kx_kv("recv"), c->recvscript); c->precv = 0; }
+		if (kx_kv("pollout")) c->pollout_off = !kx_kvl("pollout", 1);
+		if (kx_kv("pollin")) c->pollin_off = !kx_kvl("pollin", 1);
+		if (kx_kvl("established", 0) && c->state == CS_CONNECTING) c->state = CS_ESTABLISHED;
+		if (kx_kvl("refuse", 0) && c->state == CS_CONNECTING) c->state = CS_REFUSED;
+		kx_out(" state=%d unread=%zu sent=%zu", c->state, c->inlen, c->sent_total); return 0; }
+	if (is("http_complete")) { /* http_complete <easy id> <httpcode> <curlcode> <hexbody|-> [chunks] */
+		int id = atoi(tok[1]), i; char spec[1 << 20]; size_t o = 0;
+		for (i = 2; i < ntok; i++) o += (size_t)snprintf(spec + o, sizeof spec - o, "%s ", tok[i]);
+		for (i = 0; i < n_all_easy; i++) if (all_easy[i] && all_easy[i]->id == id && all_easy[i]->multi) { easy_set_completion(all_easy[i], spec); return 0; }
+		return -1; }
+	if (is("set_aggr")) return KSI_CTX_setAggregator(kx_ctx(atoi(tok[1])), nz(tok[2]), nz(tok[3]), nz(tok[4]));
+	if (is("set_ext")) return KSI_CTX_setExtender(kx_ctx(atoi(tok[1])), nz(tok[2]), nz(tok[3]), nz(tok[4]));
+	if (is("set_puburl")) return KSI_CTX_setPublicationUrl(kx_ctx(atoi(tok[1])), nz(tok[2]));
+	if (is("set_conf_cb")) { KSI_CTX *c = kx_ctx(atoi(tok[1])); int r = KSI_CTX_setOption(c, KSI_OPT_AGGR_CONF_RECEIVED_CALLBACK, (void *)conf_cb); if (r) return r; return KSI_CTX_setOption(c, KSI_OPT_EXT_CONF_RECEIVED_CALLBACK, (void *)conf_cb); }
+	if (is("sign")) { /* sign <c> <s> <imprint> [lvl=n] [api=create|aggregated] */
+		KSI_CTX *c = kx_ctx(atoi(tok[1])); int rc; KSI_DataHash *h = hash_arg(c, tok[3], &rc); KSI_Signature *s = NULL; KSI_Signature **slot = kx_sigslot(atoi(tok[2])); const char *api = kx_kv("api");
+		if (!h) { kx_out(" stage=hash"); return rc; }
+		if (api && !strcmp(api, "create")) rc = KSI_createSignature(c, h, &s); else rc = KSI_Signature_signAggregated(c, h, kx_kvu("lvl", 0), &s);
+		KSI_DataHash_free(h);
+		if (rc != KSI_OK) out_ksi_err(c);
+		if (rc != KSI_OK && s) kx_out(" objonerr=1");
+		if (rc == KSI_OK && s) out_sig("sig", s);
+		KSI_Signature_free(*slot); *slot = s; return rc; }
+	if (is("extend")) { /* extend <c> <s> <d> [to=t] [pub=string] [api=extend|extendTo|nearest] */
+		KSI_CTX *c = kx_ctx(atoi(tok[1])); KSI_Signature *s = *kx_sigslot(atoi(tok[2])); KSI_Signature **slot = kx_sigslot(atoi(tok[3])); KSI_Signature *e = NULL; int rc; const char *api = kx_kv("api");
+		if (api && !strcmp(api, "nearest")) rc = KSI_extendSignature(c, s, &e);
+		else if (kx_kv("pub")) { KSI_PublicationData *pd = NULL; KSI_PublicationRecord *pr = NULL; rc = KSI_PublicationData_fromBase32(c, kx_kv("pub"), &pd); if (rc) { kx_out(" stage=pub"); return rc; }
+			KSI_PublicationRecord_new(c, &pr); KSI_PublicationRecord_setPublishedData(pr, pd); rc = KSI_Signature_extend(s, c, pr, &e); KSI_PublicationRecord_free(pr); }
+		else if (kx_kv("to")) { KSI_Integer *t = NULL; KSI_Integer_new(c, kx_kvu("to", 0), &t); rc = KSI_Signature_extendTo(s, c, t, &e); KSI_Integer_free(t); }
+		else rc = KSI_Signature_extendTo(s, c, NULL, &e);
+		if (rc != KSI_OK) out_ksi_err(c);
+		if (rc != KSI_OK && e) kx_out(" objonerr=1");
+		if (rc == KSI_OK && e) out_sig("sig", e);
+		KSI_Signature_free(*slot); *slot = e; return rc; }
+	if (is("getconf")) { /* getconf <c> aggr|ext */
+		KSI_CTX *c = kx_ctx(atoi(tok[1])); KSI_Config *cfg = NULL; int rc = !strcmp(tok[2], "aggr") ? KSI_receiveAggregatorConfig(c, &cfg) : KSI_receiveExtenderConfig(c, &cfg);
+		if (rc == KSI_OK && cfg) { char b[512]; fmt_config(cfg, b, sizeof b); kx_out(" config=%s", b); } else out_ksi_err(c);
+		KSI_Config_free(cfg); return rc; }
+	if (is("async_new")) { /* async_new <a> <c> sign|extend|hasign|haextend */
+		KSI_AsyncService **sl = kx_asvcslot(atoi(tok[1])); KSI_CTX *c = kx_ctx(atoi(tok[2])); KSI_AsyncService *s = NULL; int rc;
+		if (!strcmp(tok[3], "sign")) rc = KSI_SigningAsyncService_new(c, &s); else if (!strcmp(tok[3], "extend")) rc = KSI_ExtendingAsyncService_new(c, &s);
+		else if (!strcmp(tok[3], "hasign")) rc = KSI_SigningHighAvailabilityService_new(c, &s); else rc = KSI_ExtendingHighAvailabilityService_new(c, &s);
+		if (*sl) KSI_AsyncService_free(*sl); *sl = s; return rc; }
+	if (is("async_free")) { KSI_AsyncService **sl = kx_asvcslot(atoi(tok[1])); if (*sl) KSI_AsyncService_free(*sl); *sl = NULL; return 0; }
+	if (is("async_endpoint")) { /* async_endpoint <a> set|add <uri> <user> <key> */
+		KSI_AsyncService *s = *kx_asvcslot(atoi(tok[1])); return !strcmp(tok[2], "add") ? KSI_AsyncService_addEndpoint(s, nz(tok[3]), nz(tok[4]), nz(tok[5])) : KSI_AsyncService_setEndpoint(s, nz(tok[3]), nz(tok[4]), nz(tok[5])); }
+	if (is("async_opt")) { int o = async_opt_by_name(tok[2]); if (o < 0) return -1; return KSI_AsyncService_setOption(*kx_asvcslot(atoi(tok[1])), o, (void *)(size_t)strtoull(tok[3], NULL, 0)); }
+	if (is("async_pushconf")) { return KSI_AsyncService_setOption(*kx_asvcslot(atoi(tok[1])), KSI_ASYNC_OPT_PUSH_CONF_CALLBACK, (void *)conf_cb); }
+	if (is("async_add")) { /* async_add <a> <c> sign <imprint> <level> <tag> | ext <aggrtime> <pubtime|-> <tag> | conf <tag> */
+		KSI_AsyncService *s = *kx_asvcslot(atoi(tok[1])); KSI_CTX *c = kx_ctx(atoi(tok[2])); KSI_AsyncHandle *h = NULL; int rc; const char *tag;
+		if (!strcmp(tok[3], "sign")) { KSI_DataHash *dh = hash_arg(c, tok[4], &rc); KSI_AggregationReq *rq = NULL; KSI_Integer *lv = NULL; if (!dh) return rc;
+			KSI_AggregationReq_new(c, &rq); KSI_AggregationReq_setRequestHash(rq, dh); if (atoi(tok[5]) > 0) { KSI_Integer_new(c, strtoull(tok[5], NULL, 0), &lv); KSI_AggregationReq_setRequestLevel(rq, lv); }
+			rc = KSI_AsyncAggregationHandle_new(c, rq, &h); if (rc) { KSI_AggregationReq_free(rq); return rc; } tag = tok[6]; }
+		else if (!strcmp(tok[3], "ext")) { KSI_ExtendReq *rq = NULL; KSI_Integer *a = NULL, *p = NULL; KSI_ExtendReq_new(c, &rq); KSI_Integer_new(c, strtoull(tok[4], NULL, 0), &a); KSI_ExtendReq_setAggregationTime(rq, a);
+			if (strcmp(tok[5], "-")) { KSI_Integer_new(c, strtoull(tok[5], NULL, 0), &p); KSI_ExtendReq_setPublicationTime(rq, p); }
+			rc = KSI_AsyncExtendHandle_new(c, rq, &h); if (rc) { KSI_ExtendReq_free(rq); return rc; } tag = tok[6]; }
+		else if (!strcmp(tok[3], "signconf")) { KSI_AggregationReq *rq = NULL; KSI_Config *cfg = NULL; KSI_AggregationReq_new(c, &rq); KSI_Config_new(c, &cfg); KSI_AggregationReq_setConfig(rq, cfg); rc = KSI_AsyncAggregationHandle_new(c, rq, &h); if (rc) { KSI_AggregationReq_free(rq); return rc; } tag = tok[4]; }
+		else return -1;
+		KSI_AsyncHandle_setRequestCtx(h, strdup(tag), tag_free);
+		rc = KSI_AsyncService_addRequest(s, h);
+		if (rc != KSI_OK) KSI_AsyncHandle_free(h);
+		else { KSI_uint64_t id = 0; KSI_AsyncHandle_getRequestId(h, &id); kx_out(" reqid=%llu", (unsigned long long)id); }
+		return rc; }
+	if (is("async_run")) { KSI_AsyncService *s = *kx_asvcslot(atoi(tok[1])); KSI_AsyncHandle *h = NULL; size_t waiting = 0; int rc = KSI_AsyncService_run(s, &h, &waiting);
+		kx_out(" waiting=%zu", waiting);
+		if (h) { kx_out(" handle=1"); out_handle(h); KSI_AsyncHandle_free(h); } else kx_out(" handle=0");
+		return rc; }
+	if (is("async_counts")) { KSI_AsyncService *s = *kx_asvcslot(atoi(tok[1])); size_t p = 0, r = 0; int rc = KSI_AsyncService_getPendingCount(s, &p); int rc2 = KSI_AsyncService_getReceivedCount(s, &r); kx_out(" pending=%zu received=%zu rc2=%d", p, r, rc2); return rc; }
+	*handled = 0; return 0;
+}
 void kx_net_ctx_init(KSI_CTX *ctx) { (void)ctx; }
-int kx_net_dispatch(char **tok, int ntok, int *handled) { (void)tok; (void)ntok; *handled = 0; return 0; }
 void kx_net_cleanup(void) {}
